@@ -1,6 +1,6 @@
 """What MANIFEST.json claims (kept apart from the check logic)."""
 TECHNIQUE = "Lean 4 proof over hand-written executable model + differential correspondence with the Go implementation"
-HOOK_COMMITS = ["6d567af"]
+HOOK_COMMITS = ["6d567af", "1215bca"]
 NOTES = ("See DESIGN.md. Every check: lake build of the property module + axiom audit, harness rebuilt from /repo working "
          "tree with -tags verif, corpus + generated cases judged by the compiled Lean driver (model output and monitor predicate).")
 DEFAULT_NA = "machinery under construction in this round (design in DESIGN.md §6); not yet claimed"
@@ -8,6 +8,8 @@ NOT_YET = {}
 _TB = ("Trusted: Lean kernel + propext/Classical.choice/Quot.sound; hand-written models (checked against the code by the "
        "correspondence engine on every run, not assumed); generators and canonicalisers. ")
 ENGINES = [
+    {"name": "memo", "path": "go/cmd/corr/memo.go", "serves_properties": ["C13"],
+     "kind_free_text": "history: WAFs sharing strings in different roles built alone vs together; live cache keys checked against the Lean key function"},
     {"name": "iso", "path": "go/cmd/corr/eng.go", "serves_properties": ["C05"],
      "kind_free_text": "history: predecessor transaction(s) then probe on one WAF (pooled object reuse); probe outcome vs Lean model on a fresh state"},
     {"name": "engrep", "path": "go/cmd/corr/eng.go", "serves_properties": ["C04", "C12"],
@@ -47,6 +49,14 @@ CLAIMED = {
              "in Close is necessary. Tied to /repo by `iso`: predecessor + probe on one WAF, probe outcome vs the model on a "
              "fresh state.",
         note=_ENG_NOTE, ref="6/C05", engine="iso"),
+    "C13": dict(
+        text="Lean 4 theorems: the cache key function is injective on (kind, input) (prefix code), the cache invariant "
+             "'every entry was built for a site with that key' holds after every history of constructions and closures, and "
+             "under it every lookup returns exactly what a direct build returns (C13_transparent, C13_history); Release leaves "
+             "no entry owned by the closed WAF and keeps others' values. Tied to /repo by `memo`: configurations reusing the "
+             "same strings in different roles built alone vs in shared histories, plus the shape of every live cache key.",
+        note=_TB + "The operators themselves are not modelled in this engine (monitor: behaviour alone == behaviour in history).",
+        ref="6/C13", engine="memo"),
     "C09": dict(
         text="Lean 4 theorems: the state after a link is the left fold of 'update MATCHED_*, then run every non-disruptive "
              "action once' over exactly the link's matches, in order (so once per match, macros expanded at that moment); "
